@@ -34,8 +34,10 @@ Definition m9mul (a b : list Q) : list Q :=
    e9 a 3 * e9 b 0 + e9 a 4 * e9 b 3 + e9 a 5 * e9 b 6; e9 a 3 * e9 b 1 + e9 a 4 * e9 b 4 + e9 a 5 * e9 b 7; e9 a 3 * e9 b 2 + e9 a 4 * e9 b 5 + e9 a 5 * e9 b 8;
    e9 a 6 * e9 b 0 + e9 a 7 * e9 b 3 + e9 a 8 * e9 b 6; e9 a 6 * e9 b 1 + e9 a 7 * e9 b 4 + e9 a 8 * e9 b 7; e9 a 6 * e9 b 2 + e9 a 7 * e9 b 5 + e9 a 8 * e9 b 8].
 Definition m9det (a : list Q) : Q :=
-  e9 a 0 * (e9 a 4 * e9 a 8 - e9 a 5 * e9 a 7) - e9 a 1 * (e9 a 3 * e9 a 8 - e9 a 5 * e9 a 6) + e9 a 2 * (e9 a 3 * e9 a 7 - e9 a 4 * e9 a 6).
+  Qred (Qred (e9 a 0 * Qred (e9 a 4 * e9 a 8 - e9 a 5 * e9 a 7)) - Qred (e9 a 1 * Qred (e9 a 3 * e9 a 8 - e9 a 5 * e9 a 6))
+        + Qred (e9 a 2 * Qred (e9 a 3 * e9 a 7 - e9 a 4 * e9 a 6))).
 Definition m9adj (a : list Q) : list Q :=
+  map Qred
   [e9 a 4 * e9 a 8 - e9 a 5 * e9 a 7; e9 a 2 * e9 a 7 - e9 a 1 * e9 a 8; e9 a 1 * e9 a 5 - e9 a 2 * e9 a 4;
    e9 a 5 * e9 a 6 - e9 a 3 * e9 a 8; e9 a 0 * e9 a 8 - e9 a 2 * e9 a 6; e9 a 2 * e9 a 3 - e9 a 0 * e9 a 5;
    e9 a 3 * e9 a 7 - e9 a 4 * e9 a 6; e9 a 1 * e9 a 6 - e9 a 0 * e9 a 7; e9 a 0 * e9 a 4 - e9 a 1 * e9 a 3].
@@ -48,7 +50,7 @@ Definition kappa_inf (a : list Q) : Q :=
   let d := Qabs (m9det a) in
   if Qle_bool d 0 then 0 else Qred (norm_inf a * norm_inf (m9adj a) / d).
 Definition m9app (a : list Q) (x y z : Q) : Q * Q * Q :=
-  (e9 a 0 * x + e9 a 1 * y + e9 a 2 * z, e9 a 3 * x + e9 a 4 * y + e9 a 5 * z, e9 a 6 * x + e9 a 7 * y + e9 a 8 * z).
+  (Qred (e9 a 0 * x + e9 a 1 * y + e9 a 2 * z), Qred (e9 a 3 * x + e9 a 4 * y + e9 a 5 * z), Qred (e9 a 6 * x + e9 a 7 * y + e9 a 8 * z)).
 
 Definition U53 : Q := 1 # 9007199254740992.        (* 2^-53 *)
 
@@ -137,19 +139,19 @@ Definition check (c : qcase) : string :=
       let m := hkl_vec_from_Q_vec O (vq q) ub (mq r) in
       let A := m9mul (entries r) (m9mul (entries u) (entries b)) in
       let kap := kappa_inf A in
-      let tol := c * kap * U53 in
+      let tol := Qred (c * kap * U53) in
       let s := rcmp h mn false m o tol in
       if negb (String.eqb s "") then s
       else match o with
            | OutVec hx hy hz hsc _ =>
                (* residual 2 pi R UB hkl - Q in physical terms, with the implementation's hkl *)
                let sA := m_sc r * m_sc u * m_sc b in
-               let '(ax, ay, az) := m9app A (hx * hsc) (hy * hsc) (hz * hsc) in
+               let '(ax, ay, az) := m9app A (Qred (hx * hsc)) (Qred (hy * hsc)) (Qred (hz * hsc)) in
                let two_pi := (2 # 1) * qpi in
-               let rx := two_pi * sA * ax - v_x q * v_sc q in
-               let ry := two_pi * sA * ay - v_y q * v_sc q in
-               let rz := two_pi * sA * az - v_z q * v_sc q in
-               let nq := (Qabs (v_x q) + Qabs (v_y q) + Qabs (v_z q)) * v_sc q in
+               let rx := Qred (Qred (two_pi * sA * ax) - Qred (v_x q * v_sc q)) in
+               let ry := Qred (Qred (two_pi * sA * ay) - Qred (v_y q * v_sc q)) in
+               let rz := Qred (Qred (two_pi * sA * az) - Qred (v_z q * v_sc q)) in
+               let nq := Qred ((Qabs (v_x q) + Qabs (v_y q) + Qabs (v_z q)) * v_sc q) in
                if Qle_bool (Qabs rx) (tol * nq) && Qle_bool (Qabs ry) (tol * nq) && Qle_bool (Qabs rz) (tol * nq)
                then "" else "residual"
            | _ => ""
